@@ -8,11 +8,13 @@ All statements hold for every configuration `c` (any number of blocks, any scrip
 topology incl. cycles, any completion times, any recursion budget).
 
 Not proved here (validated on every run by the correspondence of the call logs and by the oracle):
-`routine_at_most_once` and the relative order restore ≺ init_async ≺ init_regular ≺ initdef of one
-block's calls; the "sufficient" direction of the order independence.
+the place of `init_async` in a block's call sequence (at most once, after the restore, before
+`init_regular` unless an event forced the synchronous steps); the "sufficient" direction of the order
+independence.
 -/
 import EdzedModel.Init
 import EdzedProofs.Init
+import EdzedProofs.InitOrder
 
 namespace Edzed.Init
 
@@ -79,6 +81,34 @@ theorem legacy_wait_init_returns_after_failed_first_pass :
       waitInit v = .raised :=
   ⟨{ n := 1, blk := fun _ => { initdef := some (Val.int 1, .direct) }, cblocks := [true], fuel := 8 },
    ⟨true, false, true⟩, by unfold View.of; decide, by decide, by decide, by decide⟩
+
+/-- Full statement: per block the calls are a subsequence of restore, init_async, init_regular, initdef
+    (init_async after init_regular only when an event forced the synchronous steps), each at most once.
+    Proved: the part about the three synchronous routines -- for every block the calls of `_restore_state`,
+    `init_regular`, `init_from_value(initdef)` form a sublist of [P, R, D]: each at most once, in this order,
+    whatever events arrive during the initialisation (the `init_steps_completed` protocol). -/
+theorem source_order_partial (c : Cfg) (b : Nat) :
+    (proj b (run c).log).Sublist [.P, .R, .D] :=
+  shape_sublist _ _ (run_J c b)
+
+/-- every synchronous routine runs at most once per block (init_async: see the note above) -/
+theorem routine_at_most_once_partial (c : Cfg) (b : Nat) (k : SK) :
+    (proj b (run c).log).count k ≤ 1 := by
+  have h := (source_order_partial c b).count_le k
+  have : List.count k [SK.P, .R, .D] ≤ 1 := by cases k <;> decide
+  omega
+
+/-- the steps reached and the calls made go together: a block that completed both steps has called
+    `init_regular` exactly once -/
+theorem completed_steps_called_regular (c : Cfg) (b : Nat) (h : (run c).steps b = 2) :
+    (proj b (run c).log).count .R = 1 := by
+  have := run_J c b
+  rw [h, shape2] at this
+  rcases this with e | e | e | e <;> rw [e] <;> decide
+
+example : ∃ c, proj 0 (run c).log = [.P, .R, .D] :=
+  ⟨{ n := 1, blk := fun _ => { persist := .raises, initdef := some (Val.int 1, .viaEvent), dests := [0] },
+     fuel := 16 }, by decide⟩
 
 /-- `init_async` is started only for a block that is still uninitialised and has a positive `init_timeout` -/
 theorem async_only_if (c : Cfg) (b : Nat) (u : Bool) (t : Int)
